@@ -9,6 +9,10 @@ symx.prover -- discharge verification conditions.
               unsat  => the goal holds for every real assignment satisfying the path condition (sound);
               sat    => not proved at this multiplier degree (a candidate, to be replayed concretely).
 """
+import os
+import subprocess
+import sys
+import tempfile
 import time
 from fractions import Fraction
 import z3
@@ -68,8 +72,44 @@ def prove_int(eng, atoms, acc=None):
     return 'proved' if r == z3.unsat else ('unknown' if r == z3.unknown else 'unproved')
 
 
+BUILD_BUDGET_S = 40.0
+HARD_LIMIT_ASSERTIONS = 1500      # larger queries go to the z3 command line binary under a hard wall-clock limit
+Z3_BIN = os.path.join(os.path.dirname(sys.executable), 'z3')
+
+
+def check_with_hard_limit(solver, n_assertions, timeout_s, stats=None):
+    """z3 verdict as a string.  z3's own soft timeout is not always honoured inside large simplex runs (observed:
+    > 15 min on a satisfiable query with 6e4 equalities), so big queries are decided by the z3 CLI in a child process
+    that is killed at the limit.  A kill / '(error' / anything unexpected is reported as 'unknown' (inconclusive)."""
+    if n_assertions < HARD_LIMIT_ASSERTIONS or not os.path.exists(Z3_BIN):
+        r = solver.check()
+        return 'unsat' if r == z3.unsat else ('sat' if r == z3.sat else 'unknown')
+    smt = solver.to_smt2()
+    fd, path = tempfile.mkstemp(suffix='.smt2', prefix='symx_')
+    try:
+        with os.fdopen(fd, 'w') as f:
+            f.write(smt)
+        try:
+            p = subprocess.run([Z3_BIN, f'-T:{int(timeout_s)}', path], capture_output=True, text=True, timeout=timeout_s + 15)
+        except subprocess.TimeoutExpired:
+            return 'unknown'
+        out = p.stdout.strip()
+        if '(error' in out or '(error' in p.stderr:
+            return 'unknown'
+        tok = out.split()[0] if out.split() else ''
+        if stats is not None:
+            stats['cli'] = stats.get('cli', 0) + 1
+        return tok if tok in ('sat', 'unsat') else 'unknown'
+    finally:
+        try:
+            os.unlink(path)
+        except OSError:
+            pass
+
+
 def _saturate(hyps, seeds, rounds, maxdeg, max_products):
     """goal-directed multiplier products; returns list of product polynomials"""
+    t_start = time.time()
     prods = []
     seen = set()
     hinfo = []
@@ -99,7 +139,7 @@ def _saturate(hyps, seeds, rounds, maxdeg, max_products):
                     for mm in p:
                         if mm not in target:
                             new.add(mm)
-                    if len(prods) >= max_products:
+                    if len(prods) >= max_products or (len(prods) % 512 == 0 and time.time() - t_start > BUILD_BUDGET_S):
                         return prods, True
         target |= new
         frontier = new
@@ -119,8 +159,8 @@ def split_pairs(pairs):
     return out
 
 
-def prove(eng, goals=(), goal_atoms=(), rounds=2, maxdeg=8, extra_hyps=(), use_pc=True, timeout_ms=60000,
-          max_products=150000, acc=None, label='vc', ineq_multipliers=False, extra_atoms=(), pairs=()):
+def prove(eng, goals=(), goal_atoms=(), rounds=2, maxdeg=8, extra_hyps=(), use_pc=True, timeout_ms=30000,
+          max_products=60000, acc=None, label='vc', ineq_multipliers=False, extra_atoms=(), pairs=()):
     """
     goals: polynomials (Sym or dict) that must equal 0;  goal_atoms: Atoms that must hold.
     Returns 'proved' | 'unproved' | 'unknown'.
@@ -191,9 +231,14 @@ def prove(eng, goals=(), goal_atoms=(), rounds=2, maxdeg=8, extra_hyps=(), use_p
             acc.inc(label + '_trivial')
     else:
         s.add(z3.Or(*neg) if len(neg) > 1 else neg[0])
-        r = s.check()
+        if capped:
+            r = 'unknown'      # the multiplier set was cut off: do not spend solver time on a query that cannot prove the goal
+        else:
+            r = check_with_hard_limit(s, len(prods) + len(hyps), timeout_ms / 1000.0)
         dt = time.time() - t1
-        res = 'proved' if r == z3.unsat else ('unknown' if r == z3.unknown else 'unproved')
+        res = 'proved' if r == 'unsat' else ('unknown' if r == 'unknown' else 'unproved')
+        if acc is not None and len(prods) + len(hyps) >= HARD_LIMIT_ASSERTIONS:
+            acc.inc('vc_cli_queries')
     if acc is not None:
         acc.inc(label + '_queries', 1 if neg else 0); acc.inc(label + '_' + res)
         acc.inc('vc_t_solver', dt); acc.inc('vc_t_build', t1 - t0); acc.inc('vc_products', len(prods))
